@@ -629,6 +629,63 @@ func (pw *partWorld) checkVersion(d *ring.PartitionRingDesc) {
 		pw.checkPartRanges(pr, d)
 	case "C12":
 		pw.checkPartShards(pr, d)
+		pw.checkPartShardsOtherStates(d)
+	}
+}
+
+// checkPartShardsOtherStates: the same content plus partitions that are neither pending, active nor inactive (a
+// removal marker as the gossip store keeps it, the zero state, a state value of a newer version): shards are made
+// of active partitions only and have the size announced.
+func (pw *partWorld) checkPartShardsOtherStates(d *ring.PartitionRingDesc) {
+	s := pw.s
+	if s.Failed() || !s.Chance(0.3, "shards-with-other-states") {
+		return
+	}
+	d2 := deepPartDesc(d)
+	old := time.Now().Add(-48 * time.Hour).Unix()
+	for k := s.Range(1, 2, "other-state-partitions"); k > 0; k-- {
+		pid := int32(900 + k)
+		st := sim.Pick(s, "other-state", ring.PartitionDeleted, ring.PartitionUnknown, ring.PartitionState(7))
+		tok := []uint32{uint32(1000*k + 7), uint32(2_000_000_000 + k), 4294967000 + uint32(k)}
+		if d2.Partitions == nil {
+			d2.Partitions = map[int32]ring.PartitionDesc{}
+		}
+		d2.Partitions[pid] = ring.PartitionDesc{Id: pid, Tokens: tok, State: st, StateTimestamp: old}
+	}
+	pr, err := ring.NewPartitionRing(*deepPartDesc(d2))
+	if err != nil || pr == nil {
+		return
+	}
+	active := map[int32]bool{}
+	for pid, p := range d2.Partitions {
+		if p.State == ring.PartitionActive {
+			active[pid] = true
+		}
+	}
+	n := len(active)
+	for _, id := range []string{"tenant-1", "t2", "t3"} {
+		for _, size := range []int{1, 2, 3, n, 0} {
+			var sub *ring.PartitionRing
+			var err error
+			pw.try("PartitionRing.ShuffleShard", func() { sub, err = pr.ShuffleShard(id, size) })
+			if err != nil || sub == nil {
+				continue
+			}
+			got := partIDs(sub)
+			want := size
+			if size <= 0 || size > n {
+				want = n
+			}
+			for _, pid := range got {
+				if !active[pid] {
+					s.Fail("partition-shard-member-not-active", "other-states", "ShuffleShard(%s, %d) = %v contains partition %d which is in state %v; ring: %s", id, size, got, pid, d2.Partitions[pid].State, fmtPartDesc(d2))
+				}
+			}
+			if len(got) != want {
+				s.Fail("partition-shard-size", "other-states", "ShuffleShard(%s, %d) = %v: %d partitions, expected %d of the %d active ones; ring: %s", id, size, got, len(got), want, n, fmtPartDesc(d2))
+			}
+			s.ProbeN("partition-shards-with-other-states-checked", 1)
+		}
 	}
 }
 
